@@ -41,7 +41,78 @@ pub enum Case {
     /// an hour value within a few ulps of minute + 30 s (kind 0) or minute + 1 s (kind 1), i.e. at a rounding threshold
     /// itself (some of these make the library's seconds exactly 30.0 / 1.0). The unrounded h:m:s is what the conversion
     /// itself reports under RoundSeconds::None for the same hour value; the rounded result must follow from it.
-    Threshold { mode: u8, prayer: u8, minute: u16, kind: u8, ulps: i8 },
+    ///
+    /// `kind` >= 2 widens this to the other places where the truncated second changes: 2 = the whole minute itself
+    /// (hour values a few ulps below it read hh:mm-1:59 unrounded), 3 = minute + 59 s, 4 = minute + 29 s, 5 = minute + 31 s,
+    /// 6 = minute + 2 s; `wrap` adds whole days to the hour value (coarser ulps, negative intermediate hours).
+    Threshold {
+        mode: u8,
+        prayer: u8,
+        minute: u16,
+        kind: u8,
+        ulps: i8,
+        #[serde(default)]
+        wrap: i8,
+    },
+}
+
+const THRESHOLD_SECS: [f64; 7] = [30.0, 1.0, 0.0, 59.0, 29.0, 31.0, 2.0];
+
+/// Hook case next to a whole second: the rounded result must follow from what the conversion itself reports unrounded.
+fn threshold_eval(mode: u8, prayer: u8, minute: u16, kind: u8, ulps: i8, wrap: i8, st: &mut Stats) -> Result<(), Failure> {
+    st.eval();
+    let pr = PRAYERS[prayer as usize];
+    let secs_thr = THRESHOLD_SECS[kind as usize % THRESHOLD_SECS.len()];
+    let h0 = (minute as f64 + secs_thr / 60.0) / 60.0 + 24.0 * wrap as f64;
+    let hour = if h0 == 0.0 {
+        ulps as f64 * 8.9e-16
+    } else if h0 > 0.0 {
+        f64::from_bits((h0.to_bits() as i64 + ulps as i64) as u64)
+    } else {
+        f64::from_bits((h0.to_bits() as i64 - ulps as i64) as u64)
+    };
+    let conv = |m: u8| {
+        let mut spec = ParamSpec::plain(5);
+        spec.rounding = m;
+        let params = spec.build();
+        catch(|| verif_hooks::hour_to_time(&params, pr, hour))
+    };
+    let (Ok(base), Ok(got)) = (conv(0), conv(mode)) else {
+        return Err(Failure::new("rounding:hook:panic:threshold", "a clock time", format!("panic for hour value {:?}", hour)));
+    };
+    let want = round(MODES[mode as usize], prayer as usize, base.hour(), base.minute(), base.second());
+    let g = (got.hour(), got.minute(), got.second());
+    if g != want {
+        return Err(Failure::new(
+            format!("rounding:hook:threshold:{}:{}", gen::ROUNDING_NAMES[mode as usize], gen::PRAYER_NAMES[prayer as usize]),
+            format!("{:02}:{:02}:{:02} under {} rounding (the conversion itself reports {} unrounded for this hour value)", want.0, want.1, want.2, gen::ROUNDING_NAMES[mode as usize], base),
+            format!("{} (hour value {:?})", got, hour),
+        ));
+    }
+    // the unrounded reading itself must be one of the two seconds next to the boundary
+    let target = (minute as i64 * 60 + secs_thr as i64).rem_euclid(86400);
+    let d = circ_diff(gen::secs(base), target);
+    if !(-1..=0).contains(&d) {
+        return Err(Failure::new(
+            "rounding:hook:threshold:unrounded-reading",
+            format!("the second before or at {:02}:{:02}:{:02} for an hour value {} ulps from it", target / 3600, (target / 60) % 60, target % 60, ulps),
+            format!("{} (hour value {:?})", base, hour),
+        ));
+    }
+    if kind >= 2 {
+        st.class(if d == 0 { "hook_second_boundary_case_on_the_upper_side" } else { "hook_second_boundary_case_on_the_lower_side" });
+        if kind == 2 && d == -1 {
+            st.class("hook_just_below_a_whole_minute");
+        }
+    } else if base.second() == 30 || base.second() == 1 {
+        st.class("hook_threshold_case_on_the_upper_side");
+    } else {
+        st.class("hook_threshold_case_on_the_lower_side");
+    }
+    if wrap != 0 {
+        st.class("hook_threshold_case_days_away");
+    }
+    Ok(())
 }
 
 const MODES: [Mode; 4] = [Mode::None, Mode::Normal, Mode::Special, Mode::Aggressive];
@@ -144,8 +215,9 @@ impl Prop for C11 {
         let spec = prop_oneof![1 => plain, 1 => super::c07::full_spec()];
         let e2e = (gen::site(62.0, 6.0), spec, gen::date()).prop_map(|(site, spec, date)| Case::EndToEnd { site, spec, date });
         let edge = (0u8..4, 1u8..7, -2i8..=3, -6i8..=6).prop_map(|(mode, prayer, wrap, ulps)| Case::WrapEdge { mode, prayer, wrap, ulps });
-        let thr = (1u8..4, 1u8..7, 0u16..1440, 0u8..2, -3i8..=3).prop_map(|(mode, prayer, minute, kind, ulps)| Case::Threshold { mode, prayer, minute, kind, ulps });
-        prop_oneof![20 => hook, 30 => e2e, 1 => edge, 4 => thr].boxed()
+        let thr = (1u8..4, 1u8..7, 0u16..1440, 0u8..7, -4i8..=4, prop_oneof![3 => Just(0i8), 1 => -3i8..=3])
+            .prop_map(|(mode, prayer, minute, kind, ulps, wrap)| Case::Threshold { mode, prayer, minute, kind, ulps, wrap });
+        prop_oneof![20 => hook, 30 => e2e, 1 => edge, 6 => thr].boxed()
     }
     fn check(&self, c: &Case, st: &mut Stats) -> Result<(), Failure> {
         match c {
@@ -192,35 +264,8 @@ impl Prop for C11 {
                 st.class("hook_wrap_edge_case");
                 Ok(())
             }
-            Case::Threshold { mode, prayer, minute, kind, ulps } => {
-                st.eval();
-                let pr = PRAYERS[*prayer as usize];
-                let secs_thr = if *kind == 0 { 30.0 } else { 1.0 };
-                let h0 = (*minute as f64 + secs_thr / 60.0) / 60.0;
-                let hour = f64::from_bits((h0.to_bits() as i64 + *ulps as i64) as u64);
-                let conv = |m: u8| {
-                    let mut spec = ParamSpec::plain(5);
-                    spec.rounding = m;
-                    let params = spec.build();
-                    catch(|| verif_hooks::hour_to_time(&params, pr, hour))
-                };
-                let (Ok(base), Ok(got)) = (conv(0), conv(*mode)) else {
-                    return Err(Failure::new("rounding:hook:panic:threshold", "a clock time", format!("panic for hour value {:?}", hour)));
-                };
-                let want = round(MODES[*mode as usize], *prayer as usize, base.hour(), base.minute(), base.second());
-                let g = (got.hour(), got.minute(), got.second());
-                if g != want {
-                    return Err(Failure::new(
-                        format!("rounding:hook:threshold:{}:{}", gen::ROUNDING_NAMES[*mode as usize], gen::PRAYER_NAMES[*prayer as usize]),
-                        format!("{:02}:{:02}:{:02} under {} rounding (the conversion itself reports {} unrounded for this hour value)", want.0, want.1, want.2, gen::ROUNDING_NAMES[*mode as usize], base),
-                        format!("{} (hour value {:?})", got, hour),
-                    ));
-                }
-                if base.second() == 30 || base.second() == 1 {
-                    st.class("hook_threshold_case_on_the_upper_side");
-                } else {
-                    st.class("hook_threshold_case_on_the_lower_side");
-                }
+            Case::Threshold { mode, prayer, minute, kind, ulps, wrap } => {
+                threshold_eval(*mode, *prayer, *minute, *kind, *ulps, *wrap, st)?;
                 st.nontrivial(c);
                 Ok(())
             }
@@ -327,6 +372,25 @@ impl Prop for C11 {
                 }
             }
         }
+        // every whole minute of the day x rounding mode x {minute, +1 s, +29 s, +30 s, +31 s, +59 s, +2 s} x -4..=4 ulps
+        // (x day wraps -1..=1 in the thorough tier), for one rounded-up prayer key and Shurooq
+        let (mlo, mhi) = chunk(1440, shard, nshards);
+        let wraps: &[i8] = if tier == Tier::Thorough { &[0, -1, 1, 2] } else { &[0] };
+        for minute in mlo..mhi {
+            for mode in 1u8..4 {
+                for kind in 0u8..7 {
+                    for ulps in -4i8..=4 {
+                        for &wrap in wraps {
+                            for prayer in [1u8, 2] {
+                                threshold_eval(mode, prayer, minute as u16, kind, ulps, wrap, st)
+                                    .map_err(|f| (Case::Threshold { mode, prayer, minute: minute as u16, kind, ulps, wrap }, f))?;
+                                st.nontrivial_enum(1);
+                            }
+                        }
+                    }
+                }
+            }
+        }
         if shard == 0 {
             st.sample(json!({"enumerated": "mode x prayer key x second", "example": {"mode": "Normal", "prayer": "Fajr", "second": 43199, "expected": "12:00:00"}}));
         }
@@ -336,7 +400,7 @@ impl Prop for C11 {
         true
     }
     fn rule(&self) -> String {
-        "engine 1 (exhaustive over mode x prayer key x second of the day = 4 x 6 x 86,400 points per pass; quick 1 pass, thorough 5; sub-second fraction, +-24 h wrap and minute offset filled in per point from a fixed hash) through the hour_to_time hook; engine 2 generated end-to-end cases (site |lat|<=62; half with a plain method, 7 minute offsets in [-1500,1500] and policy None/default/seventh-of-night, half with the full parameter product of C07: angles, real-valued Fajr/Isha/Imsaak intervals, offsets, schools, all 15 policies) comparing modes Normal/Special/Aggressive with None for all 7 entries, plus generated hook cases with arbitrary offsets. Non-trivial = unrounded second != 0 (rounding had something to decide): enumerated points counted once (first pass), generated cases by hash. `exhaustive` refers to engine 1".into()
+        "engine 1 (exhaustive over mode x prayer key x second of the day = 4 x 6 x 86,400 points per pass; quick 1 pass, thorough 5; sub-second fraction, +-24 h wrap and minute offset filled in per point from a fixed hash) through the hour_to_time hook; engine 2 generated end-to-end cases (site |lat|<=62; half with a plain method, 7 minute offsets in [-1500,1500] and policy None/default/seventh-of-night, half with the full parameter product of C07: angles, real-valued Fajr/Isha/Imsaak intervals, offsets, schools, all 15 policies) comparing modes Normal/Special/Aggressive with None for all 7 entries, plus generated hook cases with arbitrary offsets; and a second-boundary sweep through the hook: every whole minute of the day x mode x {+0, +1, +2, +29, +30, +31, +59 s} x -4..=4 ulps (x day wraps in the thorough tier), where the rounded result must follow from what the conversion itself reports unrounded for the same hour value (this sweep is what reports D11). Non-trivial = unrounded second != 0 (rounding had something to decide): enumerated points counted once (first pass), generated cases by hash. `exhaustive` refers to engine 1".into()
     }
     fn assumptions(&self) -> Vec<String> {
         vec![
